@@ -227,7 +227,7 @@ func TestC02(t *testing.T) {
 		return
 	}
 	base := pgen.DefaultCfg()
-	per := 60
+	per := 250
 	if cfg.Thorough() {
 		per = 400
 	}
@@ -266,7 +266,7 @@ func TestC02(t *testing.T) {
 			rec.Fail("cell:binding:"+kind, detail+"\n"+clip(c.Src, 1500), c)
 		}
 	}
-	total := 4000 / cfg.NShards
+	total := 30000 / cfg.NShards
 	if cfg.Thorough() {
 		total = 600000 / cfg.NShards
 	}
